@@ -1028,7 +1028,10 @@ func (c *Conn) dispatch(fr *FrameHeader) bool {
 		c.setLastErr(err)
 	}
 
-	stop = stop || errors.Is(err, FlowControlError)
+	// A flow-control violation this end found is a connection error. The same
+	// code on a RST_STREAM the server sent is the server's verdict on that one
+	// stream and says nothing about the others.
+	stop = stop || (fr.Type() != FrameResetStream && errors.Is(err, FlowControlError))
 
 	// What is left is a response turned away as malformed, which is a stream
 	// error (RFC 7540 8.1.2.6). The server has to be told: it may be part way
